@@ -481,3 +481,81 @@ def read_chardata(raw, attribute=False, quote=None):
             out.append(ch)
         i += 1
     return "".join(out)
+
+
+# ------------------------------------------------------------------------------------------------------------ XInclude
+XI = "http://www.w3.org/2001/XInclude"
+XI_ENCODINGS = ["utf-8", "iso-8859-1"]  # utf-16 text includes: libxml2 keeps the byte order mark as a character (not xsdata's doing)
+
+
+def xinclude_variants(name, k, enc):
+    """(inline document bytes, {file name: bytes} with main.xml) for the k-th element of the pool document (document order, root excluded):
+    an element WITH children is moved to part.xml and included as XML; a childless element's text (plus a non-ASCII character) is moved to t.txt in
+    encoding `enc` and included as text.  Both documents are produced by ElementTree from the same tree, so they differ in the inclusion only."""
+    import copy
+    import xml.etree.ElementTree as ET
+
+    _cls, text = doc_text(name)
+    root = ET.fromstring(text)
+    parents = {c: p for p in root.iter() for c in p}
+    target = list(root.iter())[1:][k]
+    parent = parents[target]
+    idx = list(parent).index(target)
+    inline_root = copy.deepcopy(root)
+    files = {}
+    if len(target):
+        files["part.xml"] = ET.tostring(target, encoding="utf-8")
+        inc = ET.Element("{%s}include" % XI, {"href": "part.xml"})
+        inc.tail = target.tail
+        clone = copy.deepcopy(target)
+        clone.tail = None
+        files["part.xml"] = ET.tostring(clone, encoding="utf-8")
+        parent.remove(target)
+        parent.insert(idx, inc)
+    else:
+        body = (target.text or "") + "é"
+        # the inline twin carries the same text
+        list(inline_root.iter())[1:][k].text = body
+        files["t.txt"] = body.encode(XI_ENCODINGS[enc])
+        inc = ET.Element("{%s}include" % XI, {"href": "t.txt", "parse": "text", "encoding": XI_ENCODINGS[enc]})
+        target.text = None
+        target.append(inc)
+    files["main.xml"] = ET.tostring(root, encoding="utf-8")
+    return ET.tostring(inline_root, encoding="utf-8"), files
+
+
+def et_safe(name):
+    """ElementTree re-serialisation keeps the document's meaning (false for documents whose CONTENT uses prefixes: ElementTree renumbers them)."""
+    import xml.etree.ElementTree as ET
+
+    cls, text = doc_text(name)
+    try:
+        return parse(ET.tostring(ET.fromstring(text), encoding="utf-8"), cls, "native") == parse(text, cls, "native")
+    except Exception:  # noqa: BLE001
+        return False
+
+
+def n_elements(name):
+    import xml.etree.ElementTree as ET
+
+    return len(list(ET.fromstring(doc_text(name)[1]).iter())) - 1
+
+
+def parse_xinclude(files, cls, handler):
+    """Write the files into a fresh directory and parse main.xml from its PATH with process_xinclude on."""
+    import pathlib
+    import shutil
+
+    from xsdata.formats.dataclass.context import XmlContext
+    from xsdata.formats.dataclass.parsers import XmlParser
+    from xsdata.formats.dataclass.parsers.config import ParserConfig
+
+    d = tempfile.mkdtemp(prefix="xi_")
+    try:
+        for fn, data in files.items():
+            with open(os.path.join(d, fn), "wb") as f:
+                f.write(data)
+        p = XmlParser(context=XmlContext(), handler=handlers()[handler], config=ParserConfig(process_xinclude=True))
+        return p.from_path(pathlib.Path(d) / "main.xml", cls)
+    finally:
+        shutil.rmtree(d, True)
